@@ -18,7 +18,8 @@
 (* P-properties (what a user watching the terminal relies on):                *)
 (*   NoResidue  once the entry of test k is on the line, nothing of an        *)
 (*              earlier test is visible on that line                          *)
-(*   NoWrapV1   at -v 0 / 1 the progress line never wraps                     *)
+(*   NoWrapV1   at -v 0 / 1 the progress line never wraps (dots without        *)
+(*              --progress simply fill the lines)                             *)
 (*   CleanEnd   after the last test the cursor is at the start of a blank     *)
 (*              line and no progress entry is left standing above it          *)
 (*   Covers     (inductive reason) last_width covers everything visible       *)
@@ -176,7 +177,7 @@ TypeOK ==
   /\ phase \in {"idle", "started", "reported", "stopped", "done"}
 
 NoResidue == phase = "started" => NoResidueAt(O, st)
-NoWrapV1 == (v <= 1) => ~st.term[3]
+NoWrapV1 == (p /\ v <= 1) => ~st.term[3]
 CleanEnd == /\ (phase = "done" /\ (v = 1 \/ p)) => (st.term[1] = 0 /\ st.term[2] = Blank(W))
             /\ ~st.term[3] => ~dirtyEnd
 Covers == phase = "stopped" => CoversAt(O, st)
